@@ -65,7 +65,25 @@ finally:
 memo.pop("__builtins__", None) if False else None
 agree = (got_v == exp_v) and (got_v != 0 or memo == exp_memo)
 if exp_v >= 100 and got_v >= 100: agree = True if got_v == exp_v else False
-out.update(reproduced=not agree, model_concrete=True,
+witness_note = None
+if agree and name == "_SymbolicDim" and t1 == 0 and t2 == 0:
+    # the VC treats the value of a user expression as "a number"; the model's integer is one realisation. Non-integral values of the same
+    # expression slot (x.5, x.0 as a float) are tried as well before concluding that the real code agrees.
+    for alt in (f"{size}+0.5", f"{size}-0.5", f"({2 * size + 1})/2", f"{size}.0", f"{size}+0.999", f"{size + 1}-0.001"):
+        real2 = AT._SymbolicDim(alt, bool(d[2])); pyd2 = ("_SymbolicDim", alt, bool(d[2]))
+        e_v, e_memo = c01.axis_step(ops, pyd2, size, dict(memo0))
+        m2 = dict(memo0)
+        try:
+            r2 = AT._check_dims([real2], (size,), m2, arg_memo); g_v = 0 if r2 == "" else 1
+        except AnnotationError: g_v = 2; r2 = "AnnotationError"
+        except BaseException as e2: g_v = -1; r2 = type(e2).__name__
+        if g_v != e_v:
+            real, elem, r, got_v, exp_v, memo, exp_memo, agree = real2, alt, r2, g_v, e_v, m2, e_memo, False
+            witness_note = f"non-integral value of the symbolic expression: {alt!r} against size {size}"
+            break
+# a path through an over-approximated inner loop ("loop:some" / "loop:none") has an ABSTRACT counter-model: what that loop left behind is unknown to the VC
+abstract = any(str(x).startswith("loop:") for x in (payload.get("path") or []))
+out.update(reproduced=not agree, model_concrete=not abstract, note=witness_note,
            input=dict(dims=[repr(real)], shape=[size], single_memo=memo0, label=label if has_label else None, arg_memo=sorted(arg_memo)),
            native=dict(result=r, verdict=got_v, memo=repr(memo)[:400]), expected=dict(verdict=exp_v, memo=exp_memo),
            snippet=f"import jaxtyping._array_types as AT; m={memo0!r}; print(AT._check_dims([{real!r}], ({size},), m, {{}}), m)")
